@@ -227,18 +227,36 @@ def run(facts, rep, tier):
                 for P, E in res:
                     text = mode in ('ReadText', 'AppendText')
                     seeks = [e for e in E if e.kind == 'call' and strip_targs(e.name) == f'{F}::seek']
-                    first = seeks[0] if seeks else None
-                    okrw = first is not None and as_lin(first.args[0]) == Lin.const(0)
-                    rep.check(okrw, 'FI.4', f'read() mode {mode}: rewinds before reading', first.site if first else rd.shortloc(), 'does not start at offset 0', key='FI.4|rewind', fn=rd.name)
                     reads = [e for e in E if e.kind == 'call' and strip_targs(e.name) == f'{F}::read']
                     sizes = [e for e in E if e.kind == 'call' and strip_targs(e.name) == f'{F}::size']
+                    tells = [e for e in E if e.kind == 'call' and strip_targs(e.name) == f'{F}::tell']
                     getcs = [e for e in E if e.kind == 'call' and e.name in ('fgetc', 'getc')]
+                    is_rewind = lambda e: as_lin(e.args[0]) == Lin.const(0) and len(e.args) > 1 and repr(e.args[1]).endswith('Start')
+                    is_toend = lambda e: as_lin(e.args[0]) == Lin.const(0) and len(e.args) > 1 and repr(e.args[1]).endswith('End')
+                    def last_seek_before(ev):
+                        i = E.index(ev); prev = [x for x in seeks if E.index(x) < i]
+                        return prev[-1] if prev else None
+                    # the data is read from offset 0: the last seek before the fread is seek(0, Start)
+                    if reads:
+                        ls = last_seek_before(reads[0])
+                        okrw = ls is not None and is_rewind(ls)
+                        rep.check(okrw, 'FI.4', f'read() mode {mode}: the stream is rewound to offset 0 before the data is read', ls.site if ls else rd.shortloc(), 'the data is not read from offset 0: ' + ('no seek before the read' if ls is None else f'the last seek before it is seek({ls.args[0]}, {ls.args[1] if len(ls.args) > 1 else "?"})'), key='FI.4|rewind', fn=rd.name)
                     if text:
                         iters = len(getcs)
-                        incs = [e for e in E if e.kind == 'write' and e.name == 'local' and as_lin(e.val) is not None]
-                        rep.check(not sizes and len(seeks) >= 2, 'FI.4', f'read() mode {mode}: counts bytes and rewinds again ({iters} fgetc on this path)', rd.shortloc(), 'text mode does not count / does not rewind after counting', key='FI.4|text', fn=rd.name)
-                    else:
-                        rep.check(len(sizes) == 1 and not getcs, 'FI.4', f'read() mode {mode}: uses size()', rd.shortloc(), 'binary mode does not use size()', key='FI.4|binary', fn=rd.name)
+                        fs = last_seek_before(getcs[0]) if getcs else None
+                        okc = not sizes and bool(getcs) and fs is not None and is_rewind(fs)
+                        rep.check(okc, 'FI.4', f'read() mode {mode}: counts bytes from offset 0 ({iters} fgetc on this path)', rd.shortloc(), 'text mode does not count the bytes from the start of the stream', key='FI.4|text', fn=rd.name)
+                    elif reads and len(reads[0].args) >= 3:
+                        cnt = reads[0].args[2]
+                        nm = repr(cnt)
+                        if any(nm == f'size@{x.node.id}' for x in sizes) and not getcs:
+                            rep.ok('FI.4', f'read() mode {mode}: the byte count is size()', rd.shortloc())
+                        elif any(nm == f'tell@{x.node.id}' for x in tells) and not getcs:
+                            t0 = next(x for x in tells if nm == f'tell@{x.node.id}'); ls = last_seek_before(t0)
+                            okt = ls is not None and is_toend(ls)
+                            rep.check(okt, 'FI.4', f'read() mode {mode}: the byte count is the offset of the end of the stream (seek(0, End); tell())', t0.site, 'the byte count is a stream position that is not the end of the file', key='FI.4|binary', fn=rd.name)
+                        elif getcs: rep.violation('FI.4', f'read() mode {mode}: the byte count is the size of the file', rd.shortloc(), 'binary mode counts with fgetc', key='FI.4|binary', fn=rd.name)
+                        else: rep.inconclusive('FI.4', f'read() mode {mode}: the byte count is the size of the file', rd.shortloc(), f'the count handed to read() ({cnt}) is neither size() nor the end offset')
                     cons = [e for e in E if e.kind in ('construct',) and strip_targs(e.name).startswith('tulz::Array')]
                     if len(reads) == 1 and len(reads[0].args) >= 3:
                         a = reads[0].args
@@ -290,8 +308,11 @@ def run(facts, rep, tier):
             fc = [e for e in E if e.kind == 'call' and e.name == 'fclose']
             w = [e for e in E if e.kind == 'write' and e.obj == 'm_file']
             if is_open:
-                ok = len(fc) == 1 and len(w) == 1 and as_lin(w[0].val) == Lin.const(0) and E.index(w[0]) > E.index(fc[0])
-                rep.check(ok, 'FI.5', 'close() on an open file: fclose once, then the handle is nulled', cl.shortloc(), f'{len(fc)} fclose / {len(w)} handle writes', key='FI.5|close', fn=cl.name)
+                # fclose exactly once on the handle that was open; m_file is null when close() returns (before or after the call: std::exchange)
+                arg = fc[0].args[0] if fc and fc[0].args else None
+                closes_open = len(fc) == 1 and arg is not None and not (isinstance(arg, Lin) and arg.is_const() and arg.c == 0) and not (isinstance(arg, int) and arg == 0)
+                ok = closes_open and bool(w) and as_lin(w[-1].val) == Lin.const(0)
+                rep.check(ok, 'FI.5', 'close() on an open file: fclose once on the open handle, and the handle is null afterwards', cl.shortloc(), f'{len(fc)} fclose (argument {arg}) / {len(w)} handle writes', key='FI.5|close', fn=cl.name)
             else:
                 rep.check(not fc, 'FI.5', 'close() on a closed file does not call fclose', cl.shortloc(), 'fclose(NULL)', key='FI.5|close-null', fn=cl.name)
     dt = [f for f in facts.fns if f.d.get('class') == F and f.d.get('dtor')]
